@@ -33,9 +33,9 @@ Init == /\ st = Init0
 AnnEv(p, m, kind) ==
   LET cur == env.mseq[m]
       seq == CASE kind = "next" -> cur
-               [] kind = "dup" -> (cur + 65535) % 65536
-               [] kind = "stale" -> (cur + 65534) % 65536
-               [] kind = "skip" -> (cur + 1) % 65536
+               [] kind = "dup" -> (cur + 65535) % SeqMod
+               [] kind = "stale" -> (cur + 65534) % SeqMod
+               [] kind = "skip" -> (cur + 1) % SeqMod
   IN [e |-> "ann", p |-> p, src |-> <<m, 1>>, seq |-> seq, g |-> GmOf(m), steps |-> 0, tp |-> TpOf(m)]
 
 Events ==
@@ -50,7 +50,7 @@ EnvStep(ev) ==
   IF ev.e = "ann" THEN
      LET m == ev.src[1]
          cur == env.mseq[m]
-         nxt == IF ev.seq = cur THEN (cur + 1) % 65536 ELSE IF ev.seq = (cur + 1) % 65536 THEN (cur + 2) % 65536 ELSE cur
+         nxt == IF ev.seq = cur THEN (cur + 1) % SeqMod ELSE IF ev.seq = (cur + 1) % SeqMod THEN (cur + 2) % SeqMod ELSE cur
      IN [env EXCEPT !.mseq[m] = nxt, !.sent[m] = TRUE]
   ELSE env
 
